@@ -338,6 +338,9 @@ pub enum NonRel {
     AddConst(Term, i64, Term),
     /// succeeds iff the (projected) term is a ground integer
     IsGroundInt(Term),
+    /// succeeds iff the (projected) term contains no variable at any depth (structural test on
+    /// the term the goal holds; no substitution is consulted)
+    IsGroundTerm(Term),
 }
 
 #[derive(Clone, Copy, PartialEq, Eq, Hash, Debug)]
@@ -558,6 +561,7 @@ fn fmt_goal(g: &Goal, nq: usize, s: &mut String) {
                 NonRel::SqEq(x, q) => write!(s, "sqeq({}, {})", t(x, nq), t(q, nq)),
                 NonRel::AddConst(x, k, q) => write!(s, "addconst({}, {}, {})", t(x, nq), k, t(q, nq)),
                 NonRel::IsGroundInt(x) => write!(s, "is_ground_int({})", t(x, nq)),
+                NonRel::IsGroundTerm(x) => write!(s, "is_ground_term({})", t(x, nq)),
             };
         }
         Goal::For(x, coll, body) => {
@@ -656,7 +660,7 @@ impl Goal {
                 f(a);
                 f(b);
             }
-            Goal::NonRel(NonRel::IsGroundInt(a)) | Goal::Ticket(a) | Goal::ReadUser(a) => f(a),
+            Goal::NonRel(NonRel::IsGroundInt(a)) | Goal::NonRel(NonRel::IsGroundTerm(a)) | Goal::Ticket(a) | Goal::ReadUser(a) => f(a),
             Goal::For(_, coll, _) => coll.iter().for_each(|a| f(a)),
             Goal::Match(_, tm, arms) => {
                 f(tm);
